@@ -313,7 +313,7 @@ def range_reader(ctx, rule):
     ctx.floor(rule, fn, "RawToken literals", len(aggs), 1)
     for bi, si, a in aggs:
         sh = q.shape(a.field("is_range"))
-        ok = sh == "Option::unwrap_or_default(Option::map(BitSlice::get(var:BitVec<u8>,%s.0),closure:decode_regular::{closure#0}))" % INNER_ITEM
+        ok = sh == "Option::unwrap_or_default(Option::map(BitSlice::get(var:BitVec<u8>,%s.0),\u03bb(p1)))" % INNER_ITEM
         ctx.check(ok, rule, fn, "is_range:bit-by-segment-index",
                   "is_range is read with the non-panicking BitSlice::get at the segment's enumerate() index within its line (missing bits read as false)", ctx.site(body, bi, si), detail=sh)
         dl = q.shape(a.field("dst_line"))
@@ -335,10 +335,7 @@ def range_reader(ctx, rule):
             used = [x for x in a.field("is_range").walk() if isinstance(x, Var) and x.local == rmi]
             ctx.check(bool(used), rule, fn, "is_range:same-bitvec", "the flag is read from the bit vector decode_rmi just filled")
             ctx.check(body.dominates(calls[0][0], bi), rule, fn, "decode_rmi:before-segments", "the line's bitfield is decoded before its segments are read")
-    cl = ctx.facts.body("decoder::decode_regular::{closure#0}", required=False)
-    ok = cl is not None and any(q.shape(cl.expr_of_rvalue(s["rv"])).startswith("Deref::deref(") or "BitRef" in cl.locals[1]["ty"] or True
-                                for bi, si, s, it2 in cl.locations() if not it2 and s["k"] == "assign" and s["place"]["l"] == 0)
-    ctx.check(ok, rule, fn, "bit-deref", "the bit reference is dereferenced to a bool")
+    # (the flag is the bit itself: the closure prints as the identity \u03bb(p1) in the shape checked above)
 
 
 # ------------------------------------------------------------------------------------------------
@@ -458,17 +455,20 @@ def handover(ctx, rule):
         return
     nb, call = news[0]
     a = [q.shape(x) for x in call.args]
-    ctx.check(a[0] == "Option::map(arg1.file,closure:decode_regular::{closure#2})", rule, fn, "new#0:file", "file comes from the document's file", detail=a[0])
+    ctx.check(q.wild("Option::map(arg1.file,closure:*)", a[0]), rule, fn, "new#0:file", "file comes from the document's file", detail=a[0])
+    fc = closure_body(ctx, call.args[0])
+    fsh = sorted(sh for sh, _, _ in q.def_shapes(fc, 0, {})) if fc is not None else []
+    ctx.check(fsh == ["'<invalid>'", "string(arg2)"], rule, fn, "new#0:file-text", "a string file name is kept as it is (anything else reads as '<invalid>')", detail=str(fsh))
     aggs = token_aggs(b)
     tok_vec = None
     for bi, t in q.calls_to(b, "Vec::<T, A>::push"):
         if q.shape(q.arg_expr(b, t, 1)).startswith("RawToken{"):
             tok_vec = q.root_local(q.arg_expr(b, t, 0))
     ctx.check(tok_vec is not None and q.root_local(call.args[1]) == tok_vec, rule, fn, "new#1:tokens", "the token vector passed is the one the segments were pushed to")
-    ctx.check(a[2] == "Iterator::collect(Iterator::map(IntoIterator::into_iter(Option::unwrap_or_default(arg1.names)),closure:decode_regular::{closure#1}))", rule, fn, "new#2:names", "names come from the document's names", detail=a[2])
+    ctx.check(q.wild("Iterator::collect(Iterator::map(IntoIterator::into_iter(Option::unwrap_or_default(arg1.names)),closure:*))", a[2]), rule, fn, "new#2:names", "names come from the document's names", detail=a[2])
     ctx.check(a[3] == "Iterator::collect(Iterator::map(Iterator::map(IntoIterator::into_iter(Option::unwrap_or_default(arg1.sources)),fn:Option::unwrap_or_default),fn:Into::into))", rule, fn, "new#3:sources",
               "sources come from the document's sources, null entries read as empty names", detail=a[3])
-    ctx.check(a[4] == "Option::map(arg1.sources_content,closure:decode_regular::{closure#3})", rule, fn, "new#4:contents", "contents come from sourcesContent", detail=a[4])
+    ctx.check(a[4] == "Option::map(arg1.sources_content,\u03bb(Iterator::collect(Iterator::map(IntoIterator::into_iter(p1),\u03bb(Option::map(p1,fn:Into::into))))))", rule, fn, "new#4:contents", "contents come from sourcesContent", detail=a[4])
     sm = q.root_local(b.expr_of_operand({"k": "copy", "place": b.blocks[nb]["term"]["dest"]}))
     roles = {sm: "sm"}
     oks = __import__("rules.common", fromlist=["x"]).result_blocks(b, "Ok")
@@ -482,7 +482,7 @@ def handover(ctx, rule):
     okv = [q.shape(b.expr_of_rvalue(s["rv"]), roles) for bi, si, s, it2 in b.locations() if not it2 and s["k"] == "assign" and s["place"]["l"] == 0 and s["rv"]["k"] == "agg" and s["rv"].get("variant") == "Ok"]
     ctx.check(okv == ["Result::Ok{0:sm}"], rule, fn, "returns-map", "that map is returned", detail=str(okv))
     # lenient names (C02.R7)
-    c1 = ctx.facts.body("decoder::decode_regular::{closure#1}", required=False)
+    c1 = closure_body(ctx, call.args[2])
     if ctx.check(c1 is not None, rule, fn, "names-closure", "the names conversion closure exists"):
         sw = [t for bi, t in [(i, c1.blocks[i]["term"]) for i in range(len(c1.blocks)) if not c1.blocks[i]["cleanup"]] if t["k"] == "switch" and q.shape(c1.expr_of_operand(t["discr"])) == "discr(arg2)"]
         adt = None
@@ -491,6 +491,14 @@ def handover(ctx, rule):
         ctx.check(vals == [2, 3], rule, c1.path, "arms:number,string", "numbers and strings are converted, everything else reads as empty", detail=str(vals))
         calls = [q.shape(c1.expr_of_call(t)) for bi, t in c1.calls()]
         ctx.check(any(c == "ToString::to_string(number(arg2))" for c in calls), rule, c1.path, "number:to_string", "numeric names read as their decimal text", detail=str(calls)[:200])
+
+
+def closure_body(ctx, e):
+    """Body of the first closure mentioned in an expression (found at its use, not by its number)."""
+    for x in e.walk():
+        if isinstance(x, Agg) and x.ak == "closure":
+            return ctx.facts.body(x.closure, required=False)
+    return None
 
 
 def field_coverage(ctx, rule):
